@@ -10,6 +10,7 @@ package checks
 import (
 	"fmt"
 	s3db "github.com/jrhy/s3db"
+	"os"
 	"strings"
 	"testing"
 
@@ -232,9 +233,16 @@ func (h *c14Handle) runTarget(c C14Case, view MSet, snaps []verSnap) c14Result {
 			}
 			q, args := s.SQL(t, "k")
 			err := h.conn.Exec(q, args...)
-			if cls := errClass(err); cls == "error" && explicit && c.Continue && len(s.Keys) == 1 {
+			if os.Getenv("VERIF_TRACE") != "" {
+				fmt.Fprintf(os.Stderr, "  stmt %s -> %v\n", s, err)
+			}
+			cls := errClass(err)
+			if cls == "error" && explicit && c.Continue && len(s.Keys) == 1 {
 				res.skipped++
-				continue // the statement failed as a whole; the transaction goes on
+				// the statement reported an error and the transaction goes on: it must have had no
+				// effect (a statement that fails inside the tree update makes the transaction
+				// un-committable since the repair R30; COMMIT then fails and rolls back)
+				continue
 			} else if cls == "error" {
 				res.err = err
 				break
